@@ -1483,6 +1483,13 @@ def S10(ctx: Ctx) -> RuleResult:
             tcs = [c for c in effs if isinstance(c, Call) and call_name(c) == '_type_check' and call_recv(c) == self_t]
             if not (len(tcs) == 1 and len(tcs[0].args) == 2 and repr(tcs[0].args[0]) == repr(elem) and tcs[0].args[1] == Attr(nxt, 'type')):
                 r.fail('HplDataAccess.type_check_references:check', f'the accessor is not type-checked against the type of its own token: {[str(c)[:80] for c in tcs]}', where)
+            # an explicit is_indexed test must have the right polarity (that the index IS checked is S5's part)
+            indexed = next((pol for g, pol in flat_guards(pg) if isinstance(g, Attr) and g.name == 'is_indexed' and repr(g.base) == repr(elem)), None)
+            idx = [c for c in effs if isinstance(c, Call) and call_name(c) == 'type_check_references' and isinstance(call_recv(c), Attr) and call_recv(c).name == 'index' and repr(call_recv(c).base) == repr(elem)]
+            if indexed is False and idx:
+                r.fail('HplDataAccess.type_check_references:index', 'the index expression is read on the path where the accessor is NOT indexed (and skipped where it is)', where)
+            if indexed is True and not idx and not any(isinstance(c, Call) and repr(call_recv(c)) == repr(elem) and call_name(c) not in ('_get_next_token',) for c in effs):
+                r.fail('HplDataAccess.type_check_references:index', 'the index of an indexed accessor is not checked', where)
         r.ok(f'root {"this/alias" if is_this is None else want}: accessors resolved from the root outwards')
     r.floor('paths through the access-path check', n, 4)
     # _get_next_token of the two accessor classes: the rejection of a token of the wrong kind (token untyped), then the
